@@ -107,6 +107,9 @@ pub enum BatchMode {
     Peekable,
     /// `by_ref().take(k)` collected, then the rest of the same iterator collected
     ByRefTake(usize),
+    /// input is an UNBOUNDED iterator (`xs.cycle()`, size_hint = (usize::MAX, None)); the first
+    /// `xs.len()` results are taken
+    CycleInput,
 }
 
 #[derive(Clone, Debug)]
@@ -570,7 +573,7 @@ pub fn execute(scn: &CursorScn, judge: Judge, cov: &mut Cov, prog: &Progress) ->
         if !judge.streams {
             continue;
         }
-        if got.pulled != b.xs.len() as u64 && !matches!(b.mode, BatchMode::VecInput) {
+        if got.pulled != b.xs.len() as u64 && !matches!(b.mode, BatchMode::VecInput | BatchMode::CycleInput) {
             return RunResult::Violation {
                 class: "laziness".into(),
                 detail: format!("batch {bi}: consuming evaluate_v with {:?} pulled {} of the {} arguments", b.mode, got.pulled, b.xs.len()),
@@ -924,7 +927,7 @@ pub fn gen_scenario(rng: &mut Rng, profile: Profile, tier: Tier) -> CursorScn {
             }
             // a handful of very long histories (16-bit query counters wrap at 65 536)
             if rng.chance(1, 100_000) {
-                nev = rng.usize_in(20_000, 100_000);
+                nev = rng.usize_in(20_000, 400_000);
             }
         }
     }
@@ -1085,7 +1088,13 @@ pub fn gen_scenario(rng: &mut Rng, profile: Profile, tier: Tier) -> CursorScn {
                 5 => match rng.below(4) {
                     0 => BatchMode::Skip(rng.usize_in(0, len.max(1))),
                     1 => BatchMode::StepBy(rng.usize_in(1, 9)),
-                    2 => BatchMode::Peekable,
+                    2 => {
+                        if rng.chance(1, 2) {
+                            BatchMode::Peekable
+                        } else {
+                            BatchMode::CycleInput
+                        }
+                    }
                     _ => BatchMode::ByRefTake(rng.usize_in(0, len.max(1))),
                 },
                 6 => BatchMode::SizeHint,
@@ -1188,6 +1197,7 @@ pub fn order_type(ends_per_func: &[Vec<f64>], scn: &CursorScn) -> u64 {
             BatchMode::SizeHint => 4,
             BatchMode::VecInput => 5,
             BatchMode::Peekable => 6,
+            BatchMode::CycleInput => 7,
             BatchMode::Skip(k) => (1 << 20) + k as u64,
             BatchMode::StepBy(k) => (2 << 20) + k as u64,
             BatchMode::ByRefTake(k) => (3 << 20) + k as u64,
@@ -1577,6 +1587,7 @@ pub fn scn_to_json(scn: &CursorScn) -> Value {
                 BatchMode::SizeHint => json!("size_hint+collect"),
                 BatchMode::VecInput => json!("vec_input+collect"),
                 BatchMode::Peekable => json!("peekable"),
+                BatchMode::CycleInput => json!("unbounded_cycle_input+take"),
                 BatchMode::Skip(k) => json!({"skip": k}),
                 BatchMode::StepBy(k) => json!({"step_by": k}),
                 BatchMode::ByRefTake(k) => json!({"by_ref_take": k}),
@@ -1657,6 +1668,7 @@ pub fn scn_from_json(v: &Value) -> Result<CursorScn, String> {
                         "size_hint+collect" => BatchMode::SizeHint,
                         "vec_input+collect" => BatchMode::VecInput,
                         "peekable" => BatchMode::Peekable,
+                        "unbounded_cycle_input+take" => BatchMode::CycleInput,
                         x => return Err(format!("bad consume_with {x}")),
                     },
                     Some(o) if o.get("skip").is_some() => BatchMode::Skip(jusize(o, "skip")?),
